@@ -275,6 +275,7 @@ def run_check(prop, tier, seed):
     coverage.setdefault('programs', max(corr.evaluations, 1))
     coverage.setdefault('disagreements_checked', len(corr.disagreements))
     coverage.update(getattr(corr, 'extra', {}))
+    coverage.update(getattr(corr, 'EXTRA_COVERAGE', {}))
     evidence = {
         'property_id': pid, 'tier': tier, 'seed': seed, 'level': getattr(prop, 'LEVEL_CATEGORY', 'proof'),
         'coverage': coverage,
